@@ -37,6 +37,7 @@ class CheckBase:
     worker_env = None           # extra environment for workers (dict) or None
     workers = 16
     max_samples = 4
+    evaluations_counter = None  # name of the monitor counter that counts the unit of evaluation (default: cases)
 
     def __init__(self, seed, tier):
         self.seed = seed
@@ -410,8 +411,13 @@ def _write_evidence(check, agg, results, wall, unmet=None, new_violations=(), kn
             if res.get('verdict') == 'held' and len(samples) < check.max_samples:
                 samples.append({'case': _shorten(case), 'classes': res.get('classes', [])[:12],
                                 'counters': res.get('counters', {})})
+        evaluations = agg['evaluations']
+        if check.evaluations_counter and agg['counters'].get(check.evaluations_counter):
+            evaluations = int(agg['counters'][check.evaluations_counter])
         cov = {
-            'evaluations': agg['evaluations'],
+            'evaluations': evaluations,
+            'cases': agg['evaluations'],
+            'evaluations_unit': check.evaluations_counter or 'cases',
             'distinct_nontrivial': len(agg['classes']),
             'rule': check.rule,
             'samples': samples,
